@@ -139,6 +139,9 @@ func (vc *VC) verify() (obls []*Obligation, err error) {
 		vc.ghostTypes["$exited"] = types.Typ[types.Bool]
 		vc.ghostTypes["$exitcode"] = types.Typ[types.Int]
 	}
+	if specModifiesStream(spec) {
+		vc.streamPos(s) // the ghost stream length is a natural number
+	}
 	if spec.Propagates {
 		s.ghost["$failed"] = False
 		vc.ghostTypes["$failed"] = types.Typ[types.Bool]
